@@ -134,6 +134,11 @@ struct ClockState {
 extern ClockState clk;
 // Process credentials as the library could see them (getauxval(AT_SECURE), get[e]uid, get[e]gid, secure_getenv).
 // cctz consults none of them; a set-ID world must therefore behave exactly like a plain one.
+// Character classification as a non-C locale would do it (bytes >= 0x80 may be letters, digits or blanks; dotless/dotted
+// i case mapping).  The zone loader uses no <cctype> function on the unchanged tree; if a change introduces one, the
+// outcome of a load must still be a function of the bytes alone.
+struct CtypeState { int mode = 0; int64_t calls = 0; };   // 0: the C locale (real libc), 1: "foreign"
+extern CtypeState ctypes;
 struct PrivState { bool active = false; bool secure = false; int64_t reads = 0; };
 extern PrivState priv;
 void fs_reset();
